@@ -17,22 +17,18 @@ type GMonthDay struct {
 var _ objecttypes.Value = GMonthDay{}
 
 func MapGMonthDay(lexicalForm string) (GMonthDay, error) {
-	lexicalForm = xsdutil.WhiteSpaceCollapse(lexicalForm)
-
-	for _, layout := range []string{
+	parsed, layout, ok := parseTimeLexicalForm(xsdutil.WhiteSpaceCollapse(lexicalForm), gMonthDayLexicalRE,
 		"--01-02",
 		"--01-02Z07:00",
-	} {
-		parsed, err := time.Parse(layout, lexicalForm)
-		if err == nil {
-			return GMonthDay{
-				Time:   parsed,
-				Layout: layout,
-			}, nil
-		}
+	)
+	if !ok {
+		return GMonthDay{}, rdf.ErrLiteralLexicalFormNotValid
 	}
 
-	return GMonthDay{}, rdf.ErrLiteralLexicalFormNotValid
+	return GMonthDay{
+		Time:   parsed,
+		Layout: layout,
+	}, nil
 }
 
 func (v GMonthDay) AsObjectValue() rdf.ObjectValue {
